@@ -292,7 +292,12 @@ func ListToFunc(s *Scope, list List, depth int) Object {
 	}
 	switch ta := list[0].(type) {
 	case Symbol:
-		return NewFunc(string(ta), list[1:])
+		// The function caches compiled arguments in its Args. Give it a slice
+		// of its own so that the list, which may also be data (a quoted form,
+		// a macro argument used twice), is left as it was.
+		args := make(List, len(list)-1)
+		copy(args, list[1:])
+		return NewFunc(string(ta), args)
 	case List:
 		if 1 < len(ta) {
 			if sym, ok := ta[0].(Symbol); ok {
